@@ -643,7 +643,28 @@ impl Scen {
         // a third of the translated variants keep the first half of the rows in place (aligned, bit-identical):
         // "different rows" then means "some rows differ", the hardest case for an equality that compares row by row
         let shared_half = translated && rng.bool(0.35);
-        let (b, bmode) = if translated {
+        // one case in eight: B is A with one to three rows appended (a model refitted after new data arrived): every
+        // row and target of A is a prefix of B's
+        let superset = rng.bool(0.125);
+        let (b, bmode) = if superset {
+            let m = rng.us(1, 3);
+            let ex = draw_rows(rng, sp.xk, grid, f32w, m, p, &g);
+            let bx = Mat::from_fn(n + m, p, |i, j| if i < n { ax.at(i, j) } else { ex.at(i - n, j) });
+            let by: Vec<f64> = match sp.yk {
+                YKind::None => vec![],
+                YKind::Reg => {
+                    let mut y = ay.clone();
+                    y.extend(reg_targets(rng, &ex, grid, f32w));
+                    y
+                }
+                YKind::Cls { .. } => {
+                    let mut y = ay.clone();
+                    y.extend((0..m).map(|_| labels[rng.below(k)]));
+                    y
+                }
+            };
+            (Ds { x: bx, y: by }, "the rows of A plus one to three appended rows")
+        } else if translated {
             let shift: Vec<f64> = (0..p).map(|_| rng.int(1, 6) as f64 * if rng.bool(0.5) { 1.0 } else { -1.0 }).collect();
             let bx = Mat::from_fn(n, p, |i, j| if shared_half && i < n / 2 { ax.at(i, j) } else { r32(f32w, ax.at(i, j) + shift[j]) });
             let by: Vec<f64> = match sp.yk {
